@@ -19,6 +19,8 @@ type Interp struct {
 	// NilKeeps: in update assignments a nil pointer/slice/map source leaves the target field untouched
 	// (the alternative, equally acceptable behaviour for zero-valued nillable sources without a zero-value setting).
 	NilKeeps bool
+	// LooseLast: the error-path oracle does not require the innermost element to be reported (partial wrapping)
+	LooseLast bool
 	// Ambiguous: entries of one map end the conversion differently (error vs panic); iteration order decides
 	Ambiguous bool
 	depth     int
